@@ -273,7 +273,7 @@ def r1_progress(ctx: Ctx) -> None:
             ctx.check(ok, construct + ":progress",
                       ("every trip round the loop passes a variant step: " + ", ".join(sorted(set(why)))[:160]) if ok else
                       "an iteration can return to the loop test without consuming input / shrinking its variant" + (f" (variant steps seen: {sorted(set(why))})" if why else " (no variant step found)"))
-    ctx.floor("while_loops", 20)
+    ctx.floor("while_loops", 13)
     # for-loops iterate finite sequences that the body does not grow
     for fn in ctx.repo.all_functions():
         if not in_scope(fn):
@@ -336,7 +336,7 @@ def r2_end_of_input(ctx: Ctx) -> None:
             ctx.check(not stuck, construct + ":end-of-input",
                       "with the input exhausted the loop exits or raises" if not stuck else
                       "with the input exhausted next() returns None / every token is EOF and this loop neither exits nor raises: it spins forever")
-    ctx.floor("eof_loops", 10)
+    ctx.floor("eof_loops", 6)
     # stuck loops met while simulating callees
     ctx.sample({"functions_simulated_at_end_of_input": sorted(sim.memo)[:40]})
 
@@ -398,7 +398,7 @@ def r3_run_sentinels(ctx: Ctx) -> None:
                               "so the sentinel must be listed or the run never ends")
                 else:
                     ctx.check(eof_const not in lit, construct, "a run that lists the EOF sentinel keeps accepting at end of input")
-    ctx.floor("run_sites", 15)
+    ctx.floor("run_sites", 10)
 
 
 def r4_recursion(ctx: Ctx) -> None:
@@ -435,7 +435,7 @@ def r4_recursion(ctx: Ctx) -> None:
                         derived.add(n.targets[0].id)
                 sub = any(arg.startswith(d + ".") for d in derived) or arg == node_param and call_name(c) == "generate_block"
                 ctx.check(sub or fn.name in explicit, f"{fn.where}:{unparse(c)[:40]}", "expands a strict sub-tree of its node (or is one of the two explicit recursions: macro application, code lookup)")
-    ctx.floor("expansion_calls", 6)
+    ctx.floor("expansion_calls", 4)
 
 
 
@@ -539,7 +539,7 @@ def r5_backup_balance(ctx: Ctx) -> None:
             else:
                 ctx.check(safe_next(last[1]), construct, "undoes `next()`: that next() must be known to be inside the input (guarded by a `peek()` EOF test); "
                           "at end of input next() returns None without advancing and the backup then moves the cursor backwards")
-    ctx.floor("backups", 3)
+    ctx.floor("backups", 2)
 
 
 RULES = [r1_progress, r2_end_of_input, r3_run_sentinels, r4_recursion, r5_backup_balance]
